@@ -13,6 +13,10 @@ from fractions import Fraction
 REL = {'<': 0, '>': 1, '=': 2}
 UNITS = {'pt': Fraction(65536), 'cm': Fraction(7227, 254) * 65536, 'mm': Fraction(7227, 2540) * 65536, 'in': Fraction(7227, 100) * 65536,
          'pc': Fraction(12) * 65536, 'bp': Fraction(7227, 7200) * 65536, 'sp': Fraction(1)}
+# `true` units (magnification is 1000 throughout, so they denote the same lengths)
+for _u in ('pt', 'cm', 'mm', 'in'):
+    UNITS['true' + _u] = UNITS[_u]
+    UNITS['true ' + _u] = UNITS[_u]
 AZ = 'abcdefghijklmnopqrstuvwxyz'
 
 
@@ -194,6 +198,12 @@ class Printer:
             return '\\expandafter\\%s\\%s ' % (mac(n[1]), mac(n[2]))
         if k == 'hash':
             return '##'
+        if k == 'cond' and len(n) > 4 and n[4] == 'macro' and n[1][0] == 'ifxchar':
+            # printing choice (same meaning): the comparison is made inside a helper macro, \ifx directly followed by its parameters
+            helper = '\\def\\zqifxh#1#2#3#4{\\ifx#1#2#3\\else#4\\fi}'
+            if helper not in self.pre:
+                self.pre.append(helper)
+            return '\\zqifxh %s%s{%s}{%s}' % (chr(n[1][1]), chr(n[1][2]), self.nodes(n[2]), self.nodes(n[3] or []))
         if k == 'cond':
             s = self.test(n[1]) + self.nodes(n[2])
             if n[3] is not None:
